@@ -447,6 +447,21 @@ func checkRHP2(c R2Case) error {
 			}
 		}
 		return fail("harness: fault on frame %d of side %d was not applied; outcomes %v / %v", fc.spec.Frame, faultSide, outs[0], outs[1])
+	case fc != nil && fc.ambiguous():
+		// the modification is indistinguishable from one at the boundary to the next frame: the
+		// named frame arrives intact. If anything was sent after it, the damage must surface there.
+		reader := 1 - faultSide
+		_, after := fc.state()
+		seen := false
+		for i := faultMsg; i < len(plans); i++ {
+			if o := outs[reader][i]; o.done && o.err != nil {
+				seen = true
+			}
+		}
+		if after >= 1 && !seen {
+			return fail("stream modified at a frame boundary (%s, message %d) with %d bytes following, and the reading side never reported an error: %v", fc.spec.Op, faultMsg, after, outs[reader])
+		}
+		label, nt = "rhp2:fault:boundary-ambiguous", true
 	case fc != nil:
 		reader := 1 - faultSide
 		for i := 0; i < faultMsg; i++ {
@@ -467,7 +482,7 @@ func checkRHP2(c R2Case) error {
 		}
 		_, after := fc.state()
 		authenticated := fc.spec.Region != "len"
-		fullFrame := fc.spec.Op == "flip" || fc.spec.Op == "insert" || (fc.spec.Op == "drop" && after >= 1)
+		fullFrame := fc.spec.Op == "flip" || fc.spec.Op == "insert" || fc.spec.Op == "dup" || (fc.spec.Op == "drop" && after >= 1)
 		if authenticated && fullFrame {
 			if !tr.IsClosed() || tr.PrematureCloseErr() == nil {
 				return fail("frame modified in transit (%s in %s, message %d %s): read failed with %q but the session is not closed (IsClosed=%v PrematureCloseErr=%v)",
@@ -562,7 +577,7 @@ func checkRHP2(c R2Case) error {
 func drawFault(t *rapid.T, frameMode bool, maxFrame int) *FaultSpec {
 	f := &FaultSpec{
 		Side:  rapid.SampledFrom([]string{"a", "b"}).Draw(t, "fault-side"),
-		Op:    rapid.SampledFrom([]string{"flip", "flip", "insert", "drop", "trunc"}).Draw(t, "fault-op"),
+		Op:    rapid.SampledFrom([]string{"flip", "flip", "insert", "dup", "drop", "trunc"}).Draw(t, "fault-op"),
 		Frame: rapid.IntRange(0, maxFrame).Draw(t, "fault-frame"),
 		Off:   rapid.Uint32().Draw(t, "fault-off"),
 		Bit:   uint8(rapid.IntRange(0, 255).Draw(t, "fault-bit")),
